@@ -4,6 +4,7 @@ import datetime
 import itertools
 import json
 
+import re
 from harness import common, codecio, schemaio
 from harness.common import Stream, hexb
 from harness.props import C12
@@ -101,6 +102,32 @@ def wire_of(v):
     return "^".join(x or "" for x in v) if isinstance(v, list) else v
 
 
+PY_SPACE = set([9, 10, 11, 12, 13, 32, 0x85, 0xa0])     # what int() strips below U+0100 (28-31 are not)
+
+
+def ref_int(v):
+    """independent reading of Python's integer syntax for text below U+0100: optional surrounding whitespace, optional
+    sign, decimal digits with single underscores between digits; None = not an integer"""
+    t = v
+    while t and ord(t[0]) in PY_SPACE:
+        t = t[1:]
+    while t and ord(t[-1]) in PY_SPACE:
+        t = t[:-1]
+    sign = 1
+    if t[:1] in ("+", "-"):
+        sign = -1 if t[0] == "-" else 1
+        t = t[1:]
+    if not t or t[0] == "_" or t[-1] == "_" or "__" in t:
+        return None
+    digits = t.replace("_", "")
+    if not digits or any(c not in "0123456789" for c in digits):
+        return None
+    n = 0
+    for c in digits:
+        n = n * 10 + "0123456789".index(c)
+    return sign * n
+
+
 def run(ctx):
     r = ctx.rng("C13")
     s = Stream("field-instances")
@@ -165,6 +192,61 @@ def run(ctx):
             s.disagree(case, got[:300], ml[:300])
     streams = [s]
 
+    # the empty string handed to the record constructor directly (the decoder never produces it, a program filling a
+    # record can): it is a value like any other - stored only where it satisfies the constraint
+    e = Stream("direct-empty-string")
+    lines, pend = [], []
+    for module, letter, spec in schemaio.record_specs():
+        cls = schemaio.real_class(module, letter)
+        if cls is None:
+            continue
+        for idx, f in enumerate(spec["fields"]):
+            if idx == 0 or f["shape"] != "scalar":
+                continue
+            sp = f["scalar"]
+            k = sp["kind"]
+            if k == "notUsed" and r.random() < 0.9:
+                continue
+            rec = [spec["letter"]] + [None] * (idx - 1) + [""]
+            try:
+                d = cls(*rec).to_dict()
+                ok = True
+            except Exception as exc:  # noqa
+                ok, d = False, type(exc).__name__
+            case = {"module": module, "letter": letter, "field": f["name"], "kind": k, "value": ""}
+            e.case(case)
+            e.count(k)
+            if k in ("text", "plain"):
+                exp = ("store", "")
+            elif k == "notUsed":
+                exp = ("none",)
+            elif k in ("integer", "date", "time", "datetime", "decimal"):
+                exp = ("reject",)
+            elif k == "constant":
+                exp = ("store", "") if sp["constant"] == "s:" else ("reject",)
+            elif k == "set":
+                exp = ("store", "") if "s:" in sp["values"] else ("reject",)
+            else:
+                exp = None
+            got = d.get(f["name"]) if ok else None
+            bad = None
+            if exp and exp[0] == "store" and (not ok or got != exp[1]):
+                bad = "the empty string satisfies the constraint but is %s" % ("rejected" if not ok else "stored as %r" % (got,))
+            elif exp and exp[0] == "reject" and ok:
+                bad = "the empty string violates the constraint but the record is built (field holds %r)" % (got,)
+            elif exp and exp[0] == "none" and (not ok or got is not None):
+                bad = "an unused field stores %r / raises" % (got,)
+            if bad:
+                e.fail(dict(case, result=repr(d)[:200]), "%s (%s): %s" % (f["name"], k, bad), "direct-empty/%s-%s" % (k, exp[0]))
+            now = d.get("timestamp") if ok and isinstance(d.get("timestamp"), str) else "0"
+            lines.append(schemaio.model_wrap_line(module, letter, now or "0", rec))
+            pend.append((case, "ok " + schemaio.dict_wire(d) if ok else "err"))
+    model = common.drive(lines) if ctx.driver_ok else [None] * len(lines)
+    for (case, got), ml in zip(pend, model):
+        if ml is not None and codecio.canon_model(ml) != got:
+            e.disagree(case, got[:300], ml[:300])
+    streams.append(e)
+
     # date / time / timestamp strings from parts
     from senaite.astm import fields
     dts = Stream("date-strings")
@@ -228,16 +310,28 @@ def run(ctx):
     fobj = fields.IntegerField(name="n")
     for v, ml in zip(cands, model):
         try:
-            got = "ok %d" % int(fobj._set_value(v))
+            stored = fobj._set_value(v)
+            got = "ok " + stored if isinstance(stored, str) and re.fullmatch(r"-?[0-9]+", stored) else "ok? %r" % (stored,)
         except Exception:
-            got = "err"
+            stored, got = None, "err"
         it.case({"value": codecio.cps(v)})
+        ref = ref_int(v)
+        if stored is not None and ref is None:
+            it.fail({"value": codecio.cps(v), "stored": repr(stored)}, "a value that is not integer syntax is stored in an integer field",
+                    "integer/accepted")
+        elif stored is None and ref is not None:
+            it.fail({"value": codecio.cps(v)}, "a value that is integer syntax (%d) is rejected by an integer field" % ref,
+                    "integer/rejected")
+        elif stored is not None:
+            try:
+                back = fobj._get_value(stored)
+            except Exception as e:  # noqa
+                back = e
+            if back != ref:
+                it.fail({"value": codecio.cps(v), "stored": repr(stored)}, "stored integer does not read back to the same value",
+                        "integer/read-back")
         if ml is not None and codecio.canon_model(ml) != got:
             it.disagree({"value": codecio.cps(v)}, got, ml)
-        if got != "err":
-            stored = fobj._set_value(v)
-            if fobj._get_value(stored) != int(v):
-                it.fail({"value": codecio.cps(v)}, "stored integer does not read back to the same value", "integer/read-back")
     streams.append(it)
 
     # too many fields / components
